@@ -56,6 +56,11 @@ Theorem c20_scroll : forall off diff len, 1 <= scroll_down off diff len <= Nat.m
 Proof. exact scroll_in_range. Qed.
 Print Assumptions c20_scroll.
 
+(** ... and so does the position a preview itself asks for *)
+Theorem c20_scroll_init : forall req len, 1 <= scroll_init req len <= Nat.max (len - 1) 1.
+Proof. exact scroll_init_in_range. Qed.
+Print Assumptions c20_scroll_init.
+
 (** Non-vacuity: request 0 (command) is overtaken while its child runs: killed, dropped; requests
     1 and 2 arrive together, 1 is skipped; request 2's child exits by itself and is shown. *)
 Example c20_example :
